@@ -116,5 +116,40 @@ Proof. by move=> n A; apply: cholmP. Qed.
 Theorem chol_exists n (A : 'M[F]_n) : spd A -> exists L, chol_of L A.
 Proof. by move=> sA; exists (cholm A); apply: cholmP. Qed.
 
-(* the factor is unique: the contract pins the oracle down completely *)
+(* the factor is unique: the contract pins the oracle down completely (every function that meets
+   chol_contract agrees with cholm on spd inputs) *)
+Lemma cholm_S n (A : 'M[F]_(1 + n)) :
+  cholm A = block_mx (Num.sqrt (A 0 0))%:M 0 ((Num.sqrt (A 0 0))^-1 *: dlsubmx A)
+              (cholm (drsubmx A - ((Num.sqrt (A 0 0))^-1 *: dlsubmx A) *m ((Num.sqrt (A 0 0))^-1 *: dlsubmx A)^T)).
+Proof. by []. Qed.
+
+Lemma chol_unique n (A L : 'M[F]_n) : chol_of L A -> L = cholm A.
+Proof.
+elim: n A L => [A L _|n IH A L [lL dL eL]]; first by apply/matrixP => -[].
+change ('M[F]_(1 + n)) in A; change ('M[F]_(1 + n)) in L.
+have trL : is_trig_mx L by apply/is_trig_mxP.
+move: trL; rewrite -{1}[L]submxK (@is_trig_block_mx _ 1 n 1 n) // => /and3P [/eqP ur0 _ /is_trig_mxP lD].
+set l11 := L 0 0; set l21 := dlsubmx L; set L22 := drsubmx L.
+have eUL : ulsubmx L = l11%:M.
+  by rewrite [LHS]mx11_scalar !mxE /l11; congr (L _ _)%:M; apply: val_inj.
+have l0 : 0 < l11 by apply: dL.
+have := eL; rewrite -{1 2}[L]submxK ur0 eUL (@tr_block_mx _ 1 n 1 n) (@mulmx_block _ 1 n 1 n 1 n) trmx0 tr_scalar_mx !mulmx0 !mul0mx !addr0.
+rewrite -scalar_mxM mul_scalar_mx mul_mx_scalar -/l21 -/L22 -[A in _ = A]submxK.
+move=> hB; have [e11 e12 e21 e22] := @eq_block_mx _ 1 n 1 n _ _ _ _ _ _ _ _ hB.
+have ea : l11 * l11 = A 0 0.
+  have := congr1 (fun M : 'M[F]_1 => M 0 0) e11; rewrite !mxE eqxx mulr1n => ->.
+  by congr (A _ _); apply: val_inj.
+have er : Num.sqrt (A 0 0) = l11 by rewrite -ea -expr2 sqrtr_sqr gtr0_norm.
+have el : (Num.sqrt (A 0 0))^-1 *: dlsubmx A = l21.
+  by rewrite er -e21 scalerA mulVf ?scale1r // gt_eqF.
+have c22 : chol_of L22 (drsubmx A - l21 *m l21^T).
+  split=> //; first by move=> i; have := dL (rshift 1 i); rewrite -{1}[L]submxK (@block_mxEdr _ 1 n 1 n).
+  by rewrite -e22 addrC addKr.
+by rewrite cholm_S el er -(IH _ _ c22) -{1}[L]submxK ur0 eUL.
+Qed.
+
+Theorem chol_contract_unique (c1 c2 : forall n : nat, 'M[F]_n -> 'M[F]_n) :
+  chol_contract c1 -> chol_contract c2 -> forall n (A : 'M[F]_n), spd A -> c1 n A = c2 n A.
+Proof. by move=> h1 h2 n A sA; rewrite (chol_unique (h1 n A sA)) (chol_unique (h2 n A sA)). Qed.
+
 End Chol.
